@@ -1088,6 +1088,9 @@ func (c *Ctx) checkAccess(st *State, fr *Frame, ins ssa.Instruction, pv Value, w
 	if !ok {
 		return
 	}
+	if l.Kind == LocElem {
+		c.checkSharedAccess(st, fr, ins, l.Base, true, write)
+	}
 	fm := c.fieldModeOf(l)
 	if fm == nil {
 		return
@@ -1145,7 +1148,30 @@ func (c *Ctx) lockOf(st *State, stT types.Type, obj Term, lockField string) Term
 	panic("no lock field " + lockField)
 }
 
+// checkSharedAccess: accesses to the contents of local data declared `shared ... guarded_by l`.
+func (c *Ctx) checkSharedAccess(st *State, fr *Frame, ins ssa.Instruction, ref Term, slice bool, write bool) {
+	if c.cur == nil || len(c.cur.shared) == 0 {
+		return
+	}
+	what := "read"
+	if write {
+		what = "write"
+	}
+	for _, sr := range c.cur.shared {
+		if sr.slice != slice {
+			continue
+		}
+		h := c.Arr(st, famHeld, ArraySort(SInt, SBool))
+		goal := Select(h, sr.lock)
+		if ref.S != sr.ref.S {
+			goal = Or(T(SBool, "(not (= %s %s))", ref.S, sr.ref.S), goal)
+		}
+		c.Oblige(st, fr, ins, "access", "shared "+sr.name, goal, fmt.Sprintf("%s of the contents of %s (shared between goroutines) requires its lock to be held", what, sr.name))
+	}
+}
+
 func (c *Ctx) checkMapAccess(st *State, fr *Frame, ins ssa.Instruction, mv ssa.Value, m Term, write bool) {
+	c.checkSharedAccess(st, fr, ins, m, false, write)
 	// map contents of a guarded deep field: find the load the map came from
 	un, ok := mv.(*ssa.UnOp)
 	if !ok {
